@@ -94,7 +94,7 @@ def valid_by_descriptor(d, v):
     if t == 'value': return v == d[1]
     if t == 'data':
         if d[2] is None and d[1] in ('NCName', 'ID', 'IDREF'): return True if is_ncname(v) else None
-        if d[2] is None and d[1] == 'anyURI': return True          # XML Schema: no string is excluded from the lexical space of anyURI in practice
+        if d[2] is None and d[1] in ('anyURI', 'string'): return True          # XML Schema: no string is excluded from the lexical space of anyURI in practice
         if d[2] is None and d[1] == 'language': return True if re.fullmatch(r'[a-zA-Z]{1,8}(-[a-zA-Z0-9]{1,8})*', v) else None      # XML Schema part 2, 3.3.3
         if d[2] is None and d[1] == 'QName': return True if re.fullmatch(r'([A-Za-z_][\w.\-]*:)?[A-Za-z_][\w.\-]*', v) else None
         if d[2] is not None:
